@@ -128,4 +128,178 @@ theorem majority_parameters_extended {w w0 : KMap Rat} {cur cur0 : String} {seed
   simp only [Spec.C18.paramsExtended]
   simp [this]
 
+/-! ### ELECTRE III, aspect elimination, satisfaction -/
+
+theorem any_false_of_has_false {β : Type} {w : KMap β} {k : String} (hnew : w.has k = false) :
+    (w.any fun p => p.1 == k) = false := by
+  rw [Bool.eq_false_iff]
+  intro hany
+  rw [List.any_eq_true] at hany
+  obtain ⟨p, hp, hpk⟩ := hany
+  have e : p.1 = k := by simpa using hpk
+  unfold KMap.has at hnew
+  have hex : ∃ v, List.lookup k w = some v := by
+    clear hnew
+    induction w with
+    | nil => simp at hp
+    | cons q qs ih =>
+      simp only [List.lookup]
+      by_cases hq : (k == q.1) = true
+      · rw [hq]; exact ⟨_, rfl⟩
+      · have hq' : (k == q.1) = false := by simpa using hq
+        rw [hq']
+        simp only [List.mem_cons] at hp
+        rcases hp with rfl | hp
+        · rw [e] at hq'; simp at hq'
+        · exact ih hp
+  obtain ⟨v, hv⟩ := hex
+  rw [hv] at hnew; simp at hnew
+
+theorem eqLin_refl (a : LinFun Rat) : Spec.C18.eqLin a a = true := by simp [Spec.C18.eqLin]
+theorem eqECrit_refl (a : ECrit Rat) : Spec.C18.eqECrit a a = true := by simp [Spec.C18.eqECrit, eqLin_refl]
+
+/-- ELECTRE III: merging the listener's addition adds exactly the entry of the new criterion -/
+theorem electre_parameters_extended {ec ec0 : KMap (ECrit Rat)} {dist dist0 : LinFun Rat} {crit ref : Crit Rat}
+    {d d' : Draws Rat} {add : Addition Rat} {mp' : MParams Rat} (hnd : (ec.map (·.1)).Nodup)
+    (h1 : onAdded (.electre ec0 dist0) crit ref d = .ok (add, d'))
+    (h2 : mergeParams (.electre ec dist) add = .ok mp') :
+    Spec.C18.paramsExtended (.electre ec dist) mp' [crit.id] = true := by
+  unfold onAdded at h1
+  simp only at h1
+  obtain ⟨⟨u, dd⟩, _, h3⟩ := bind_eq_ok.mp h1
+  clear h1
+  simp [pure, Except.pure] at h3
+  obtain ⟨rfl, _⟩ := h3
+  unfold mergeParams at h2
+  simp only at h2
+  obtain ⟨e', he', h4⟩ := bind_eq_ok.mp h2
+  clear h2
+  simp [pure, Except.pure] at h4
+  subst h4
+  obtain ⟨rfl, hfresh⟩ := mergeDisjoint_ok he'
+  have hnew : ec.has crit.id = false := hfresh (crit.id, _) (List.mem_singleton.mpr rfl)
+  simp only [Spec.C18.paramsExtended, List.length_append, List.length_cons, List.length_nil, beq_self_eq_true,
+    Bool.true_and, List.all_cons, List.all_nil, Bool.and_true, Bool.and_eq_true, List.all_eq_true, eqLin_refl]
+  refine ⟨?_, ?_, ?_⟩
+  · intro p hp
+    obtain ⟨k', v⟩ := p
+    have := fun l => lookup_append_of_some (β := ECrit Rat) l (lookup_of_mem_nodup hnd hp)
+    simp only [KMap.get?, this, eqECrit_refl]
+  · simpa using hnew
+  · unfold KMap.has
+    rw [lookup_append_new ec (any_false_of_has_false hnew)]; rfl
+
+/-- what `levelsOnAdded` can return: nothing (coefficient sources) or one singleton map per level -/
+theorem levelsOnAdded_shape {lv : Levels Rat} {crit ref : Crit Rat} {d d' : Draws Rat} {la : LvAdd Rat} {asc : Bool}
+    (h : levelsOnAdded asc lv crit ref d = .ok (la, d')) :
+    la = .none ∨ ∃ vs : List Rat, la = .thresholds (vs.map fun v => [(crit.id, v)]) := by
+  unfold levelsOnAdded at h
+  cases lv with
+  | coef a b c => simp [pure, Except.pure] at h; exact Or.inl h.1.symm
+  | thresholds ts =>
+    simp only at h
+    obtain ⟨s, _, h⟩ := bind_eq_ok.mp h
+    simp only [pure, Except.pure, Except.ok.injEq, Prod.mk.injEq] at h
+    exact Or.inr ⟨_, h.1.symm⟩
+
+/-- merging such an update extends every level by exactly the new criterion -/
+theorem levelsMerge_extended {lv lv' : Levels Rat} {la : LvAdd Rat} {k : String}
+    (hla : la = .none ∨ ∃ vs : List Rat, la = .thresholds (vs.map fun v => [(k, v)]))
+    (hnd : ∀ ts, lv = .thresholds ts → ∀ t ∈ ts, (t.map (·.1)).Nodup)
+    (h : levelsMerge lv la = .ok lv') : Spec.C18.levelsExtended lv lv' [k] = true := by
+  cases lv with
+  | coef a b c =>
+    simp [levelsMerge, pure, Except.pure] at h
+    subst h
+    simp [Spec.C18.levelsExtended]
+  | thresholds ts =>
+    rcases hla with rfl | ⟨vs, rfl⟩
+    · simp [levelsMerge, throw, throwThe, MonadExceptOf.throw] at h
+    · unfold levelsMerge at h
+      simp only at h
+      split at h
+      · simp [throw, throwThe, MonadExceptOf.throw] at h
+      · rename_i hlen
+        obtain ⟨merged, hm, h⟩ := bind_eq_ok.mp h
+        simp only [pure, Except.pure, Except.ok.injEq] at h
+        subst h
+        obtain ⟨hl, hp⟩ := mapM_ok hm
+        have hlen' : ts.length ≤ (vs.map fun v => [(k, v)]).length := by omega
+        have hml : merged.length = ts.length := by
+          rw [hl, List.length_zip]; omega
+        simp only [Spec.C18.levelsExtended, Bool.and_eq_true, beq_iff_eq, List.all_eq_true]
+        refine ⟨hml.symm, ?_⟩
+        intro xy hxy
+        obtain ⟨i, hi, rfl⟩ := List.mem_iff_getElem.mp hxy
+        simp only [List.length_zip] at hi
+        have hi1 : i < ts.length := by omega
+        have hi2 : i < merged.length := by omega
+        have hi3 : i < (vs.map fun v => [(k, v)]).length := by omega
+        have hz : ((ts.zip (vs.map fun v => [(k, v)]))[i]'(by rw [List.length_zip]; omega), merged[i]) ∈
+            (ts.zip (vs.map fun v => [(k, v)])).zip merged := by
+          rw [List.mem_iff_getElem]
+          exact ⟨i, by simp only [List.length_zip]; omega, by simp⟩
+        have hmi := hp _ hz
+        simp only [List.getElem_zip, List.getElem_map] at hmi
+        obtain ⟨e, hfresh⟩ := mergeDisjoint_ok hmi
+        have hnew : ts[i].has k = false := hfresh (k, _) (List.mem_singleton.mpr rfl)
+        have := mapExtended_append ts[i] k (vs[i]'(by simpa using hi3)) hnew (hnd ts rfl ts[i] (List.getElem_mem hi1))
+        simp only [List.getElem_zip]
+        rw [e]; exact this
+
+/-- aspect elimination: the weights and every level get exactly the entry of the new criterion -/
+theorem aspect_parameters_extended {fn fn0 : String} {lv lv0 : Levels Rat} {seed seed0 : Int} {w w0 : KMap Rat}
+    {rnd rnd0 : Bool} {crit ref : Crit Rat} {d d' : Draws Rat} {add : Addition Rat} {mp' : MParams Rat}
+    (hnd : (w.map (·.1)).Nodup) (hndl : ∀ ts, lv = .thresholds ts → ∀ t ∈ ts, (t.map (·.1)).Nodup)
+    (h1 : onAdded (.aspect fn0 lv0 seed0 w0 rnd0) crit ref d = .ok (add, d'))
+    (h2 : mergeParams (.aspect fn lv seed w rnd) add = .ok mp') :
+    Spec.C18.paramsExtended (.aspect fn lv seed w rnd) mp' [crit.id] = true := by
+  unfold onAdded at h1
+  simp only at h1
+  obtain ⟨⟨u, dd⟩, _, h3⟩ := bind_eq_ok.mp h1
+  clear h1
+  dsimp only at h3
+  split at h3
+  · exact (throw_bind_ne_ok.mp h3).elim
+  · obtain ⟨⟨la, d2⟩, hla, h3⟩ := bind_eq_ok.mp h3
+    simp only [pure, Except.pure, Except.ok.injEq, Prod.mk.injEq] at h3
+    obtain ⟨rfl, _⟩ := h3
+    unfold mergeParams at h2
+    simp only at h2
+    split at h2
+    · exact (throw_bind_ne_ok.mp h2).elim
+    · obtain ⟨lv', hlv, h2⟩ := bind_eq_ok.mp h2
+      obtain ⟨w', hw', h2⟩ := bind_eq_ok.mp h2
+      simp only [pure, Except.pure, Except.ok.injEq] at h2
+      subst h2
+      obtain ⟨rfl, hfresh⟩ := mergeDisjoint_ok hw'
+      have hnew : w.has crit.id = false := hfresh (crit.id, _) (List.mem_singleton.mpr rfl)
+      have hm := mapExtended_append w crit.id (u * (w0.get? ref.id).getD Num.zero) hnew hnd
+      have hl := levelsMerge_extended (levelsOnAdded_shape hla) hndl hlv
+      simp only [Spec.C18.paramsExtended, hm, hl, beq_self_eq_true, Bool.and_self]
+
+/-- satisfaction heuristic: every level gets exactly the threshold of the new criterion -/
+theorem satisf_parameters_extended {fn fn0 : String} {lv lv0 : Levels Rat} {seed seed0 : Int} {cur cur0 : String}
+    {rnd rnd0 : Bool} {crit ref : Crit Rat} {d d' : Draws Rat} {add : Addition Rat} {mp' : MParams Rat}
+    (hndl : ∀ ts, lv = .thresholds ts → ∀ t ∈ ts, (t.map (·.1)).Nodup)
+    (h1 : onAdded (.satisf fn0 lv0 seed0 cur0 rnd0) crit ref d = .ok (add, d'))
+    (h2 : mergeParams (.satisf fn lv seed cur rnd) add = .ok mp') :
+    Spec.C18.paramsExtended (.satisf fn lv seed cur rnd) mp' [crit.id] = true := by
+  unfold onAdded at h1
+  simp only at h1
+  split at h1
+  · exact (throw_bind_ne_ok.mp h1).elim
+  · obtain ⟨⟨la, d2⟩, hla, h1⟩ := bind_eq_ok.mp h1
+    simp only [pure, Except.pure, Except.ok.injEq, Prod.mk.injEq] at h1
+    obtain ⟨rfl, _⟩ := h1
+    unfold mergeParams at h2
+    simp only at h2
+    split at h2
+    · exact (throw_bind_ne_ok.mp h2).elim
+    · obtain ⟨lv', hlv, h2⟩ := bind_eq_ok.mp h2
+      simp only [pure, Except.pure, Except.ok.injEq] at h2
+      subst h2
+      have hl := levelsMerge_extended (levelsOnAdded_shape hla) hndl hlv
+      simp only [Spec.C18.paramsExtended, hl, beq_self_eq_true, Bool.and_self]
+
 end Rdm
